@@ -70,7 +70,12 @@ func plans(n int) []string {
 	for k := 0; k <= n; k++ {
 		out = append(out, fmt.Sprintf("at:%d", k))
 	}
-	return append(out, "every")
+	out = append(out, "every")
+	if n >= 3 {
+		// the caller collects checkpoints only every 2nd message
+		out = append(out, "every+pop:2")
+	}
+	return out
 }
 
 func enumerate(w *runner.W, run func(Case, *runner.Rec)) {
@@ -225,9 +230,9 @@ func enumerate(w *runner.W, run func(Case, *runner.Rec)) {
 			}
 			for _, k := range kinds {
 				n := len(probe20)
-				doStream(fl, &ord, Case{Sizes: probe20, Kind: k, Comp: c}, []string{"none", "every", "at:0", fmt.Sprintf("at:%d", n/2), fmt.Sprintf("at:%d", n)})
+				doStream(fl, &ord, Case{Sizes: probe20, Kind: k, Comp: c}, []string{"none", "every", "every+pop:2", "every+pop:5", "at:0", fmt.Sprintf("at:%d", n/2), fmt.Sprintf("at:%d", n)})
 				for _, cy := range cyc {
-					doStream(fl, &ord, Case{Cycle: cy, Kind: k, Comp: c}, []string{"none", "every", "at:0", fmt.Sprintf("at:%d", cy.N/2), fmt.Sprintf("at:%d", cy.N)})
+					doStream(fl, &ord, Case{Cycle: cy, Kind: k, Comp: c}, []string{"none", "every", "every+pop:2", "every+pop:5", "at:0", fmt.Sprintf("at:%d", cy.N/2), fmt.Sprintf("at:%d", cy.N)})
 				}
 			}
 		}
